@@ -468,6 +468,10 @@ class Generator(object):
 
                 lines += self.add_sequence_member(addition, checker)
 
+        if not lines:
+            # Only NULL members. An empty struct is not valid C99.
+            lines = ['uint8_t dummy;']
+
         return ['struct {'] + indent_lines(lines) + ['}']
 
     def format_sequence_of(self, type_, checker):
@@ -489,6 +493,11 @@ class Generator(object):
             length_lines = ['uint8_t length;']
         else:
             length_lines = ['uint32_t length;']
+
+        if not length_lines and not lines:
+            # Fixed number of NULL elements. An empty struct is not
+            # valid C99.
+            lines = ['uint8_t dummy;']
 
         return ['struct {'] + indent_lines(length_lines + lines) + ['}']
 
